@@ -38,6 +38,7 @@ type v14Conf struct {
 	CliMaxHeaderList uint32 `json:"cli_max_header_list"`
 	DisableCompr     bool   `json:"disable_compression"`
 	ViaHTTP2Config   bool   `json:"via_http2config"`
+	StrictMax        bool   `json:"strict_max_streams"`
 
 	CapC2S  int `json:"pipe_cap_c2s"`
 	CapS2C  int `json:"pipe_cap_s2c"`
@@ -200,7 +201,7 @@ func v14Case(rng *rand.Rand, s string) string {
 
 var v14ReqNames = []string{"accept", "accept-language", "cache-control", "referer", "authorization", "if-modified-since", "if-none-match", "origin", "pragma", "x-forwarded-for", "via", "from", "max-forwards"}
 var v14RespNames = []string{"cache-control", "etag", "last-modified", "location", "server", "set-cookie", "vary", "www-authenticate", "link", "age", "allow", "content-language", "content-location", "expires", "retry-after", "accept-ranges", "strict-transport-security"}
-var v14TrailerNames = []string{"grpc-status", "grpc-message", "server-timing", "etag", "digest", "x-checksum"}
+var v14TrailerNames = []string{"grpc-status", "grpc-message", "server-timing", "digest", "x-checksum", "x-request-cost"}
 
 type v14HdrGen struct {
 	rng    *rand.Rand
@@ -360,6 +361,9 @@ func v14GenConf(rng *rand.Rand, mode, flavor string) *v14Conf {
 	cf.RMaxSrv = vsrvPick(rng, 0, 0, 1, 7, 100, 4096)
 	cf.RMaxCli = vsrvPick(rng, 0, 0, 1, 7, 100, 4096)
 	cf.WaitSettings = true
+	// Without StrictMaxConcurrentStreams a ClientConn at the server's limit refuses the request
+	// ("client conn not usable": the pool would dial another connection), which is by design.
+	cf.StrictMax = cf.SrvMaxStreams != 0 && cf.SrvMaxStreams < 100 || rng.IntN(2) == 0
 	cf.JitterPM = vsrvPick(rng, 0, 0, 5, 30, 100)
 
 	nw := 1 + rng.IntN(3)
@@ -667,7 +671,8 @@ func v14GenExch(rng *rand.Rand, cf *v14Conf, idx, wave int, flavor string, maxBo
 		e.RespHdr = append(e.RespHdr, rg.fields(nf, v14RespNames, "x-", hb)...)
 	}
 	if bodyStatus && sp(70) {
-		e.RespHdr = append(e.RespHdr, v14Hdr{K: v14Case(rng, "content-type"), V: []string{vsrvPick(rng, "application/octet-stream", "text/html; charset=utf-8", "application/grpc+proto", "image/png")}})
+		// (special response fields are set under their canonical key, as net/http documents)
+		e.RespHdr = append(e.RespHdr, v14Hdr{K: "Content-Type", V: []string{vsrvPick(rng, "application/octet-stream", "text/html; charset=utf-8", "application/grpc+proto", "image/png")}})
 	}
 	if sp(8) {
 		e.RespHdr = append(e.RespHdr, v14Hdr{K: "Date", V: []string{"Tue, 15 Nov 1994 08:12:31 GMT"}})
@@ -768,6 +773,7 @@ func v14GenExch(rng *rand.Rand, cf *v14Conf, idx, wave int, flavor string, maxBo
 			if room := rlimit - delta - cur; room >= 60 {
 				e.RespHdr = append(e.RespHdr, v14Filler(rng, room, "p")...)
 				e.NearLimit = "resp"
+				e.EarlyHints = 0
 			}
 		}
 	}
